@@ -20,6 +20,10 @@ import sys
 import threading
 import time
 
+import os as _os_cov, sys as _sys_cov
+if _os_cov.environ.get("VERIF_COV_OUT"):
+    _sys_cov.path.insert(0, _os_cov.path.dirname(_os_cov.path.abspath(__file__)))
+    import cov_hook  # noqa: F401  (diagnostic line coverage, off by default)
 import joblib.parallel as JP
 from joblib import Parallel, delayed
 
